@@ -17,6 +17,12 @@ pub const CAP_MULTI_RESULTS: u32 = 1 << 17;
 pub const CAP_PS_MULTI_RESULTS: u32 = 1 << 18;
 pub const CAP_PLUGIN_AUTH: u32 = 1 << 19;
 pub const CAP_DEPRECATE_EOF: u32 = 1 << 24;
+/// capability bits that change neither the layout of the handshake response nor the format of any
+/// later packet (so a server that starts honouring them still talks the dialect our decoders read):
+/// LONG_PASSWORD, FOUND_ROWS, LONG_FLAG, NO_SCHEMA, ODBC, LOCAL_FILES, IGNORE_SPACE, INTERACTIVE,
+/// IGNORE_SIGPIPE, TRANSACTIONS, RESERVED, MULTI_STATEMENTS, MULTI_RESULTS, PS_MULTI_RESULTS,
+/// CAN_HANDLE_EXPIRED_PASSWORDS, REMEMBER_OPTIONS
+pub const CAP_FORMAT_NEUTRAL: u32 = 1 | 2 | 4 | 16 | 64 | 128 | 256 | 1024 | 4096 | 0x2000 | 0x4000 | (1 << 16) | (1 << 17) | (1 << 18) | (1 << 22) | (1 << 31);
 
 pub const STATUS_MORE_RESULTS: u16 = 0x0008;
 
